@@ -14,8 +14,8 @@ LEVEL_TEXT = ('Partition: the invariant "no endpoint is both idle and active, no
               'The three hook overrides satisfy the hook contract under which C03/C04 are proved (same clause list), so those results hold for the aperture balancer too.')
 LEVEL_NOTE = ('NOT covered: the convergence sentence ("the per-member load settles inside the band or the size is pinned") -- a limit statement over traffic histories that no contract expresses; the value of the moving average (Ema.Update is an unconstrained real); '
               '_Jitter/_ScheduleNextJitter (timer-driven expand-then-contract: built from the two verified operations, not itself under contract); that __init__ establishes the invariant; the pending-endpoint guard beyond "pending and not forced => no contraction". '
-              'Trusted: pyvc encoding (reals for floats), z3/cvc5, random.choice as an arbitrary element, _OpenInitialChannels (starts the opens; _OpenNode itself is verified), AsyncResult.ContinueWith registers a callback that runs later.')
+              'Trusted: pyvc encoding (reals for floats), z3/cvc5, random.choice as an arbitrary element, AsyncResult.ContinueWith registers a callback that runs later.')
 ASSUMPTIONS = ['the base-class body of a hook runs only for receivers whose class does not override it (entry assumption of the base hooks in the aperture aspect)', 'endpoints are truthy objects (the contraction scan tests "if not least_loaded_endpoint")', 'the constructed balancer satisfies the invariant (empty heap, empty idle set)',
                'notifications are delivered serially; no dispatch during the initial load']
-TRUSTED = ['HeapBalancerSink._OpenInitialChannels']
+TRUSTED = []
 BOUNDED = []
